@@ -1,6 +1,7 @@
 // One real fix8 session (Session + Connection + FIXReader/FIXWriter + Timer + persister) against a scripted
 // counterparty on a simulated socket. Shared by C16-C19, C22, C23, C25.
 #pragma once
+#include <memory>
 #include "snode.hpp"
 
 namespace sw {
@@ -10,7 +11,7 @@ using namespace sn;
 using drv::Op; using drv::Plan; using drv::Result;
 
 struct Out { Msg m; int64_t t; size_t idx; int conn; };      // a message the session wrote
-struct Snap { size_t after_op; unsigned nss, nrs; int state; bool has_ctrl; unsigned cs, ct; int64_t t; size_t out_n; size_t deliv_n; bool terminated; };
+struct Snap { size_t after_op; unsigned nss, nrs; int state; bool has_ctrl; unsigned cs, ct; int durable; unsigned dcs, dct; int64_t t; size_t out_n; size_t deliv_n; bool terminated; };
 
 struct World
 {
@@ -47,6 +48,15 @@ struct World
 		if (pers == 1) return new MemoryPersister;
 		if (pers == 2) { auto *fp = new FilePersister; fp->initialise(dir, "ses.db", false); return fp; }
 		return nullptr;
+	}
+
+	// what a restarted process would find: a second FilePersister instance over the same files (nullptr for other stores)
+	std::unique_ptr<Persister> durable_view()
+	{
+		if (pers != 2) return nullptr;
+		std::unique_ptr<FilePersister> fp(new FilePersister);
+		if (!fp->initialise(dir, "ses.db", false)) return nullptr;
+		return std::unique_ptr<Persister>(fp.release());
 	}
 
 	// bring a connection up: new socket, (new or kept) session, new connection; the session starts (an initiator sends its
@@ -105,6 +115,8 @@ struct World
 		Snap s{}; s.after_op = op_index; s.t = sim::now_ns(); s.out_n = out.size(); s.deliv_n = deliv.size();
 		if (ses) { s.nss = ses->nss(); s.nrs = ses->nrs(); s.state = (int)ses->st(); s.terminated = ses->terminated(); }
 		if (per) { unsigned a = 0, b = 0; s.has_ctrl = per->get(a, b); s.cs = a; s.ct = b; }
+		s.durable = -1;
+		if (per && pers == 2) { auto dv = durable_view(); unsigned a = 0, b = 0; s.durable = dv && dv->get(a, b) ? 1 : 0; s.dcs = a; s.dct = b; }
 		snaps.push_back(s);
 	}
 
